@@ -198,7 +198,7 @@ def run(cmd, cwd, env=None, timeout=900):
 
 def suite_passes(repo):
     env = dict(os.environ, PYTHONPATH=repo, PYTHONDONTWRITEBYTECODE='1')
-    rc, out = run(['/venv/bin/python', '-m', 'pytest', '-q', '-x', '-p', 'no:cacheprovider', '--timeout=300',
+    rc, out = run(['/venv/bin/python', '-m', 'pytest', '-q', '-p', 'no:cacheprovider', '--timeout=300',
                    '--continue-on-collection-errors', '-n', '2'], repo, env, timeout=900)
     last = out.strip().split('\n')[-1] if out.strip() else ''
     return ('192 passed' in last), last[-120:]
